@@ -1741,7 +1741,8 @@ static int json_object_copy_serializer_data(struct json_object *src, struct json
 		    "%p\n", (void *)dst->_to_json_string);
 		return -1;
 	}
-	dst->_user_delete = src->_user_delete;
+	/* the copy owns the duplicated string, whatever the source's arrangement was */
+	dst->_user_delete = json_object_free_userdata;
 	return 0;
 }
 
